@@ -13,7 +13,9 @@ EXTENDS Integers, Sequences, FiniteSets, TLC, Json
 
 CONSTANTS BpfSet, FilesSet, ReqSet, SubSet, EmitOn
 
-VARIABLES cfg,       \* [bpf, nfiles, last, req (requested blocks, 0 = not given), nsub, digitize, cards, dio]
+VARIABLES cfg,       \* [bpf, nfiles, last, req (requested blocks, 0 = not given), nsub, digitize, second ("none" | "same" | "flip")]
+          rec,       \* recording in progress (1 or 2): the same backend may record again, possibly with the other digitise flag
+          done,      \* summaries of finished recordings
           pc, blk, sub,
           inFile, inPos,     \* open input file and byte position in it (in units of one framed block)
           cached,    \* power of the digitiser target deviation folded into the filterbank's CACHED deviation (must stay 0)
@@ -21,50 +23,62 @@ VARIABLES cfg,       \* [bpf, nfiles, last, req (requested blocks, 0 = not given
           reads,     \* sequence of [file, index] of the input blocks consumed
           nout       \* blocks written
 
-vars == <<cfg, pc, blk, sub, inFile, inPos, cached, gains, reads, nout>>
+vars == <<cfg, rec, done, pc, blk, sub, inFile, inPos, cached, gains, reads, nout>>
 
 InBlocks(c) == c.bpf * (c.nfiles - 1) + c.last
 NumBlocks(c) == IF c.req = 0 THEN InBlocks(c) ELSE IF c.req < InBlocks(c) THEN c.req ELSE InBlocks(c)
 
-Init == /\ cfg \in {c \in [bpf : BpfSet, nfiles : FilesSet, last : BpfSet, req : ReqSet, nsub : SubSet, digitize : BOOLEAN] :
+Dig == IF rec = 1 THEN cfg.digitize ELSE IF cfg.second = "flip" THEN ~cfg.digitize ELSE cfg.digitize
+
+Init == /\ rec = 1 /\ done = <<>>
+        /\ cfg \in {c \in [bpf : BpfSet, nfiles : FilesSet, last : BpfSet, req : ReqSet, nsub : SubSet, digitize : BOOLEAN,
+                            second : {"none", "same", "flip"}] :
                         c.last <= c.bpf /\ (c.nfiles = 1 => c.last = c.bpf)}   \* a single file defines blocks-per-file
         /\ pc = "begin" /\ blk = 0 /\ sub = 0 /\ inFile = -1 /\ inPos = 0
         /\ cached = 0 /\ gains = <<>> /\ reads = <<>> /\ nout = 0
 
 Begin == /\ pc = "begin" /\ pc' = IF NumBlocks(cfg) > 0 THEN "open" ELSE "end"
-         /\ UNCHANGED <<cfg, blk, sub, inFile, inPos, cached, gains, reads, nout>>
+         /\ UNCHANGED <<cfg, rec, done, blk, sub, inFile, inPos, cached, gains, reads, nout>>
 
 (* output file i is written while input file i is open (same blocks per file as the input) *)
 Open == /\ pc = "open"
         /\ inFile' = blk \div cfg.bpf /\ inPos' = 0 /\ pc' = "read"
-        /\ UNCHANGED <<cfg, blk, sub, cached, gains, reads, nout>>
+        /\ UNCHANGED <<cfg, rec, done, blk, sub, cached, gains, reads, nout>>
 
 (* _read_next_block: skip the header region, read BLOCSIZE bytes: consumes exactly one framed block *)
 Read == /\ pc = "read"
         /\ reads' = Append(reads, [file |-> inFile, index |-> inPos])
         /\ inPos' = inPos + 1 /\ sub' = 0 /\ pc' = "sub"
-        /\ UNCHANGED <<cfg, blk, inFile, cached, gains, nout>>
+        /\ UNCHANGED <<cfg, rec, done, blk, inFile, cached, gains, nout>>
 
 (* one sub-block: custom deviation = cached deviation * target deviation (digitiser on), computed afresh *)
 SubBlock == /\ pc = "sub" /\ sub < cfg.nsub
-            /\ gains' = Append(gains, cached + (IF cfg.digitize THEN 1 ELSE 0))
+            /\ gains' = Append(gains, cached + (IF Dig THEN 1 ELSE 0))
             /\ cached' = cached                      \* the cached array is not modified
             /\ sub' = sub + 1
             /\ pc' = IF sub + 1 < cfg.nsub THEN "sub" ELSE "write"
-            /\ UNCHANGED <<cfg, blk, inFile, inPos, reads, nout>>
+            /\ UNCHANGED <<cfg, rec, done, blk, inFile, inPos, reads, nout>>
 
 Write == /\ pc = "write"
          /\ nout' = nout + 1 /\ blk' = blk + 1
          /\ pc' = IF blk + 1 >= NumBlocks(cfg) THEN "end"
                   ELSE IF (blk + 1) % cfg.bpf = 0 THEN "open" ELSE "read"
-         /\ UNCHANGED <<cfg, sub, inFile, inPos, cached, gains, reads>>
+         /\ UNCHANGED <<cfg, rec, done, sub, inFile, inPos, cached, gains, reads>>
 
-Emit == /\ EmitOn /\ pc = "end"
-        /\ PrintT(ToJson([cfg |-> cfg, numBlocks |-> NumBlocks(cfg), reads |-> reads, gains |-> gains]))
-        /\ pc' = "emitted" /\ UNCHANGED <<cfg, blk, sub, inFile, inPos, cached, gains, reads, nout>>
-Idle == pc \in {"end", "emitted"} /\ (~EmitOn \/ pc = "emitted") /\ UNCHANGED vars
+(* a recording is over: remember its summary; the same backend may be asked to record once more (everything starts afresh
+   except what the backend keeps: the filterbank's cached unit-noise deviation) *)
+Summary == [digitize |-> Dig, numBlocks |-> NumBlocks(cfg), reads |-> reads, gains |-> gains]
+Again == /\ pc = "end" /\ rec = 1 /\ cfg.second # "none"
+         /\ done' = Append(done, Summary) /\ rec' = 2
+         /\ pc' = "begin" /\ blk' = 0 /\ sub' = 0 /\ inFile' = -1 /\ inPos' = 0 /\ gains' = <<>> /\ reads' = <<>> /\ nout' = 0
+         /\ UNCHANGED <<cfg, cached>>
+Last == pc = "end" /\ (rec = 2 \/ cfg.second = "none")
+Emit == /\ EmitOn /\ Last
+        /\ PrintT(ToJson([cfg |-> cfg, recs |-> Append(done, Summary)]))
+        /\ pc' = "emitted" /\ UNCHANGED <<cfg, rec, done, blk, sub, inFile, inPos, cached, gains, reads, nout>>
+Idle == (pc = "emitted" \/ (~EmitOn /\ Last)) /\ UNCHANGED vars
 
-Next == Begin \/ Open \/ Read \/ SubBlock \/ Write \/ Emit \/ Idle
+Next == Begin \/ Open \/ Read \/ SubBlock \/ Write \/ Again \/ Emit \/ Idle
 Spec == Init /\ [][Next]_vars
 
 -----------------------------------------------------------------------------
@@ -78,6 +92,6 @@ LengthClampedToInput ==
     /\ \A k \in 1..Len(reads) : reads[k].index < (IF reads[k].file = cfg.nfiles - 1 THEN cfg.last ELSE cfg.bpf)
 
 (* the gain applied to the synthetic signal is the same at every sub-block of every block *)
-GainStationary == \A k \in 1..Len(gains) : gains[k] = (IF cfg.digitize THEN 1 ELSE 0)
+GainStationary == \A k \in 1..Len(gains) : gains[k] = (IF Dig THEN 1 ELSE 0)
 CachedStdUntouched == cached = 0
 =============================================================================
